@@ -306,8 +306,9 @@ Proof.
   split; [reflexivity|]. destruct c; reflexivity.
 Qed.
 
-(* the compiler turns "if (a OP b)" into the fused jump of the INVERSE operator; that is
-   sound exactly when the inverse opcode is the negation *)
+(* a fact about the opcodes: the fused jump of the opposite operator is the negation exactly
+   when no operand is NaN.  (It is why the compiler must not replace "not (a < b)" by the
+   opposite jump: it does so only for == / !=, where the negation is exact even for NaN.) *)
 Definition inv_op (op : cmpop) : cmpop :=
   match op with OEq => ONe | ONe => OEq | OLt => OGe | OGe => OLt | OGt => OLe | OLe => OGt end.
 
@@ -319,4 +320,29 @@ Proof.
   exists (decide op (Some c)).
   rewrite (proj1 (site_outcome cf op l r _ H)), (proj1 (site_outcome cf (inv_op op) l r _ H)).
   split; [reflexivity|]. destruct op, c; reflexivity.
+Qed.
+
+(* what the compiler emits for a comparison in condition position, direct or inverted, enters
+   the guarded code exactly when the comparison is true as an expression - NaN included *)
+Lemma v_boolean_boolean b : v_boolean (boolean b) = b.
+Proof. destruct b; reflexivity. Qed.
+
+Lemma condition_forms_agree cf op l r :
+  cond_direct op cf l r = spec_cmp cf op l r /\ cond_inverted op cf l r = spec_cmp cf op l r.
+Proof.
+  split; [exact (proj2 (twelve_sites_agree cf op l r))|].
+  assert (Hord : forall op', expr_site op' cf l r = rmap boolean (spec_cmp cf op' l r) ->
+            (do v <- expr_site op' cf l r; Ok (v_boolean v)) = spec_cmp cf op' l r).
+  { intros op' ->. destruct (spec_cmp cf op' l r); cbn [rmap rbind]; try reflexivity.
+    rewrite v_boolean_boolean. reflexivity. }
+  destruct op; cbn [cond_inverted];
+    try (apply Hord; exact (proj1 (twelve_sites_agree cf _ l r))).
+  - change (site_JumpNotEquals cf l r) with (jump_site ONe cf l r).
+    rewrite (proj2 (twelve_sites_agree cf ONe l r)), !spec_cmp_order.
+    destruct (spec_order cf l r) as [o| | |]; cbn [rmap rbind]; try reflexivity.
+    destruct o as [[]|]; reflexivity.
+  - change (site_JumpEquals cf l r) with (jump_site OEq cf l r).
+    rewrite (proj2 (twelve_sites_agree cf OEq l r)), !spec_cmp_order.
+    destruct (spec_order cf l r) as [o| | |]; cbn [rmap rbind]; try reflexivity.
+    destruct o as [[]|]; reflexivity.
 Qed.
